@@ -73,7 +73,7 @@ example : (setScale exHist 10).toOption.map (fun h' => (values h'.bins, h'.nOut,
 
 /-- the recomputed scale after `hist.scale(s)` is `s`, when the old scale was the integral of the histogram (not a
 stale cached value) -/
-theorem hist_scale_recomputed (h h' : Hist) (s : Q) (hs : setScale h s = .ok h')
+theorem hist_scale_recomputed_partial (h h' : Hist) (s : Q) (hs : setScale h s = .ok h')
     (hfresh : ∀ c, h.scale = some c → integral h.bins h.edges.axes = .ok c) :
     getScale h' true = .ok ({ h' with scale := some s }, s) := by
   obtain ⟨I, hg, hI, hb, _, he, _⟩ := hist_scale h h' s hs
